@@ -356,12 +356,11 @@ func (r *Runtime) compileLuaStat(name string, stat *ast.BlockStat, statSize uint
 
 	// We no longer need the AST (whether that succeeded or not)
 	r.ReleaseMem(statSize)
+	statSize = 0 // So that the deferred function above doesn't release the memory again.
 
 	if err != nil {
 		return nil, 0, fmt.Errorf("%s:%s", name, err)
 	}
-
-	statSize = 0 // So that the deferred function above doesn't release the memory again.
 
 	// "Optimise" the ir code
 	constants = ir.FoldConstants(constants, ir.DefaultFold)
